@@ -227,6 +227,13 @@
         ; a pending request belongs to the current, still open batch of its context
         (= (CompactRequest_RequestContextBatchCounter (reqOf r rid)) (RequestContext_BatchCounter (ctxOf r (reqCtxId r rid))))
         (not (= (RequestContext_BatchState (ctxOf r (reqCtxId r rid))) BATCHCOMPLETED)))))
+; I_orphan (records): a request record belongs to the current batch of an existing context whose expiry is still pending;
+; a response record has its request record
+(define-fun recOK ((r (Array Key Bytes)) (rid Bytes)) Bool
+  (and (=> (not (= (select r (KReq rid)) bnil))
+           (and (ctxFound r (ridCtx rid)) (= (ridBatch rid) (RequestContext_BatchCounter (ctxOf r (ridCtx rid)))) (not (= (select r (KExpH (ridCtx rid))) bnil))))
+       (=> (not (= (select r (KResp rid)) bnil)) (not (= (select r (KReq rid)) bnil)))))
+(define-fun recInv ((r (Array Key Bytes))) Bool (forall ((rid Bytes)) (! (recOK r rid) :pattern ((select r (KReq rid))) :pattern ((select r (KResp rid))))))
 (define-fun actInv ((r (Array Key Bytes))) Bool (forall ((rid Bytes)) (! (actOK r rid) :pattern ((select r (KActID rid))))))
 
 ; ---- I_escrow (C01): what the request escrow owes: the fees of the requests still pending plus the earnings not yet withdrawn.
